@@ -12,6 +12,7 @@ import NemoVerif.Lemmas.ConflictOrderVM
 import NemoVerif.Lemmas.ConflictGroupVM
 import NemoVerif.Lemmas.ConflictRound
 import NemoVerif.Models.Match
+import NemoVerif.Models.MatchBranch
 namespace NemoVerif.C05
 open NemoVerif.Conflict List
 
@@ -772,5 +773,112 @@ theorem deferred_scheduling_counterexample :
     (exInfo 1).loop = (exInfo 3).loop ∧ (exInfo 1).ev ≠ (exInfo 3).ev := by decide
 
 end Round
+
+/-! ### Phase 6: the declared priority scales the score in EVERY branch of the score computation
+
+  `_compute_event_comparison_score` has one branch per kind of triggering event (`MatchBranch.scoreBranch`: StartFlow
+  matched by flow id, StartFlow of any flow, the other internal events, external / action events).  The property
+  quantifies over all triggering events: whatever the branch, the score is `declared priority × specificity`.
+  Tie: `C05.bscore` (every run: the real function with and without the priority against `eventScore`, per branch) and
+  the in-run clause of the oracle (every positive score computed under a priority inside a program run is re-computed
+  without it). -/
+section Priority
+open NemoVerif.Match NemoVerif.MatchBranch
+
+/-- `priority_scales_every_branch`: for every event kind (every branch `b` of the score computation) the score under
+    the declared priority `p` is the unscaled specificity of that branch with the priority factor `p` — the same
+    exponent `k` (number of unmentioned parameters), nothing else; a pair that does not match (`0.0`), fails (`-1.0`)
+    or raises does so under every priority. -/
+theorem priority_scales_every_branch (rx : Rx) (sa : String → Option (List (String × Val))) (ev ref : Ev)
+    (p : Option (Int × Nat)) (b : ScoreBranch) (_hb : scoreBranch ev ref = b) :
+    eventScore rx sa ev ref p = scaleBy p (eventScore rx sa ev ref none) ∧
+    (∀ k, eventScore rx sa ev ref none = .pos k none → eventScore rx sa ev ref p = .pos k p) ∧
+    (∀ k q, eventScore rx sa ev ref p = .pos k q → q = p ∧ eventScore rx sa ev ref none = .pos k none) ∧
+    (∀ r, (∀ k q, r ≠ .pos k q) → (eventScore rx sa ev ref p = r ↔ eventScore rx sa ev ref none = r)) := by
+  unfold eventScore
+  cases hc : eventCore rx sa ev ref with
+  | pos k q =>
+    refine ⟨rfl, ?_, ?_, ?_⟩
+    · intro k' h
+      have h1 : k = k' := by injection h
+      rw [h1]
+    · intro k' q' h
+      have h1 : k = k' ∧ p = q' := by injection h with a b; exact ⟨a, b⟩
+      rw [h1.1]; exact ⟨h1.2.symm, rfl⟩
+    · intro r hr
+      constructor <;> intro h <;> exact absurd h.symm (hr _ _)
+  | err => exact ⟨rfl, fun k h => (by cases h), fun k q h => (by cases h), fun r _ => Iff.rfl⟩
+  | mismatch => exact ⟨rfl, fun k h => (by cases h), fun k q h => (by cases h), fun r _ => Iff.rfl⟩
+  | zero => exact ⟨rfl, fun k h => (by cases h), fun k q h => (by cases h), fun r _ => Iff.rfl⟩
+
+/-- every (event, reference) pair falls into one of the four branches (the quantifier of the theorem above is total) -/
+theorem score_branch_total (ev ref : Ev) : scoreBranch ev ref ∈ ScoreBranch.all := by
+  cases h : scoreBranch ev ref <;> simp [ScoreBranch.all]
+
+/-- `higher_priority_wins`: two flows matched the SAME event — of any kind, in any branch — equally specifically (the
+    same unscaled score `k`), under declared priorities `pA`, `pB` with `pB < pA` as exact numbers.  If these matches are
+    the first position where their score vectors differ, then B is not picked, for every tie-break: among equally
+    specific matches the declared priority decides, never `random.choice`. -/
+theorem higher_priority_wins (rx : Rx) (sa : String → Option (List (String × Val))) (ev refA refB : Ev)
+    (pA pB : Option (Int × Nat)) (k : Int)
+    (hEA : eventScore rx sa ev refA none = .pos k none) (hEB : eventScore rx sa ev refB none = .pos k none)
+    (hp : mlt bnum bden ⟨k.toNat, pB⟩ ⟨k.toNat, pA⟩)
+    (S : List MScore) (r : MScore → Int) (hr : ∀ x ∈ S, ∀ y ∈ S, mlt bnum bden x y → r x < r y)
+    (hSA : ⟨k.toNat, pA⟩ ∈ S) (hSB : ⟨k.toNat, pB⟩ ∈ S)
+    (one : Int) (hs : List HeadInfo) (cs : List Nat) (A B : HeadInfo) (hA : A ∈ hs) (hl : A.loop = B.loop)
+    (pre ta tb : List Int) (kA kB : Int) (qA qB : Option (Int × Nat))
+    (hsA : eventScore rx sa ev refA pA = .pos kA qA) (hsB : eventScore rx sa ev refB pB = .pos kB qB)
+    (hsa : A.scores = pre ++ r ⟨kA.toNat, qA⟩ :: ta) (hsb : B.scores = pre ++ r ⟨kB.toNat, qB⟩ :: tb) :
+    (B, Fate.picked) ∉ resolveFates one hs cs := by
+  have eA := (priority_scales_every_branch rx sa ev refA pA _ rfl).2.1 k hEA
+  have eB := (priority_scales_every_branch rx sa ev refB pB _ rfl).2.1 k hEB
+  rw [eA] at hsA; rw [eB] at hsB
+  injection hsA with h1 h2; injection hsB with h3 h4
+  subst h1 h2 h3 h4
+  exact better_score_wins S r hr one hs cs A B hA hl pre ⟨k.toNat, pA⟩ ⟨k.toNat, pB⟩ hSA hSB ta tb hsa hsb hp
+
+/-- witnesses, one per branch: an observer's match statement against the event it reacts to, priority 1/2 -/
+def exStartFlow : Ev := { kind := .internal, name := "StartFlow", args := [("flow_id", .str "helper"), ("flow_instance_uid", .str "u1")] }
+def exRefStartId : Ev := { kind := .internal, name := "StartFlow", args := [("flow_id", .str "helper")] }
+def exRefStartAny : Ev := { kind := .internal, name := "StartFlow", args := [("flow_instance_uid", .str "u1")] }
+def exFlowFinished : Ev := { kind := .internal, name := "FlowFinished", args := [("flow_id", .str "helper"), ("flow_instance_uid", .str "u1")] }
+def exRefFinished : Ev := { kind := .internal, name := "FlowFinished", args := [("flow_id", .str "helper")] }
+def exUmim : Ev := { kind := .plain, name := "E", args := [("a", .int 1), ("b", .int 2)] }
+def exRefUmim : Ev := { kind := .plain, name := "E", args := [("a", .int 1)] }
+
+/-- non-vacuity, branch by branch: each branch is inhabited by a pair with a POSITIVE score, and the priority 1/2 shows
+    in the result of each (flow-id match 1.0·½, start of any flow 0.9²·½, FlowFinished 0.9·½, external event 0.9·½).
+    Finite facts, by evaluation. -/
+example :
+    (scoreBranch exStartFlow exRefStartId = .startFlowId ∧ eventScore (fun _ _ => false) (fun _ => none) exStartFlow exRefStartId (some (1, 1)) = .pos 0 (some (1, 1))) ∧
+    (scoreBranch exStartFlow exRefStartAny = .startFlowAny ∧ eventScore (fun _ _ => false) (fun _ => none) exStartFlow exRefStartAny (some (1, 1)) = .pos 2 (some (1, 1))) ∧
+    (scoreBranch exFlowFinished exRefFinished = .internal ∧ eventScore (fun _ _ => false) (fun _ => none) exFlowFinished exRefFinished (some (1, 1)) = .pos 1 (some (1, 1))) ∧
+    (scoreBranch exUmim exRefUmim = .umim ∧ eventScore (fun _ _ => false) (fun _ => none) exUmim exRefUmim (some (1, 1)) = .pos 1 (some (1, 1))) := by
+  decide +kernel
+
+/-- non-vacuity of `higher_priority_wins` (its hypotheses are jointly satisfiable): two observers of the start of flow
+    `helper` with priorities 1/2 and none (= 1.0), equal specificity `k = 0`, ranks 0 and 1; the observer with priority
+    1/2 is not picked. -/
+example : (⟨2, 2, 1, [0], 2, none, 0, false, false, true⟩, Fate.picked) ∉
+    resolveFates 1 [⟨1, 1, 1, [1], 1, none, 0, false, false, true⟩, ⟨2, 2, 1, [0], 2, none, 0, false, false, true⟩] [0] :=
+  higher_priority_wins (fun _ _ => false) (fun _ => none) exStartFlow exRefStartId exRefStartId none (some (1, 1)) 0
+    (by decide +kernel) (by decide +kernel) (by decide)
+    [⟨0, none⟩, ⟨0, some (1, 1)⟩] (fun x => if x = ⟨0, none⟩ then 1 else 0) (by decide) (by decide) (by decide)
+    1 _ [0] ⟨1, 1, 1, [1], 1, none, 0, false, false, true⟩ ⟨2, 2, 1, [0], 2, none, 0, false, false, true⟩ (by decide) rfl
+    [] [] [] 0 0 none (some (1, 1)) (by decide +kernel) (by decide +kernel) (by decide) (by decide)
+
+/-- The statement is about THIS function, not about every function with the same values under priority 1.0: with an exit
+    from the flow-id path before the last step (`eventScoreEarlyExit`) the flow-id branch returns the unscaled 1.0 under
+    priority 1/2 — two observers with priorities 1/2 and 1.0 get the same score, an exact tie left to `random.choice`. -/
+theorem early_exit_skips_priority_counterexample :
+    scoreBranch exStartFlow exRefStartId = .startFlowId ∧
+    eventScoreEarlyExit (fun _ _ => false) (fun _ => none) exStartFlow exRefStartId (some (1, 1)) = .pos 0 none ∧
+    eventScoreEarlyExit (fun _ _ => false) (fun _ => none) exStartFlow exRefStartId (some (1, 1)) ≠
+      scaleBy (some (1, 1)) (eventScoreEarlyExit (fun _ _ => false) (fun _ => none) exStartFlow exRefStartId none) ∧
+    eventScoreEarlyExit (fun _ _ => false) (fun _ => none) exStartFlow exRefStartId (some (1, 1)) =
+      eventScoreEarlyExit (fun _ _ => false) (fun _ => none) exStartFlow exRefStartId none := by
+  decide +kernel
+
+end Priority
 
 end NemoVerif.C05
